@@ -10,9 +10,23 @@ IsSyncedVerdict(e) ==
   ELSE IF e.ok # S!Plausible(e.stream, 0) THEN "issynced-result"
   ELSE IF e.rest # e.stream THEN "issynced-consumed-input"
   ELSE ""
+\* a stream with a gap of e.n bytes e.fill between e.pre and e.suf, judged through Sync!GapLemma
+GapVerdict(e) ==
+  LET c == S!GapShort(e.pre, e.fill, e.suf) IN
+  IF e.fill = 71 \/ e.n < 3 THEN "harness-bad-gap"
+  ELSE IF S!Found(c) THEN
+       IF S!First(c) < Len(e.pre) THEN "harness-gap-prefix-holds-a-header"
+       ELSE IF e.err # "nil" THEN "error-though-header-present"
+       ELSE IF e.off # S!GapFirst(e.pre, e.fill, e.n, e.suf) THEN "offset"
+       ELSE IF e.again_err # "nil" \/ e.again_off # 0 THEN "second-sync-on-a-synced-reader-moved"
+       ELSE IF e.rest # S!Rest(c) THEN "reader-position"
+       ELSE ""
+  ELSE IF e.err # "notfound" THEN "not-found-error"
+  ELSE ""
 Verdict(e) ==
   IF e.panic # "" THEN "panic"
   ELSE IF e.op = "issynced" THEN IsSyncedVerdict(e)
+  ELSE IF e.op = "syncgap" THEN GapVerdict(e)
   ELSE IF S!Found(e.stream) THEN
        IF e.err # "nil" THEN "error-though-header-present"
        ELSE IF e.off # S!First(e.stream) THEN "offset"
